@@ -121,7 +121,18 @@ def run_both(ops):
     return a, b
 
 
+def corpus_cases():
+    """regression corpus (runs first): minimised failing inputs of past defects and seeded changes"""
+    import glob
+    out = []
+    for p in sorted(glob.glob(os.path.join(common.VERIF, "corpus", PROP, "*.ops"))):
+        ops = [l.strip() for l in open(p) if l.strip() and not l.startswith("#")]
+        out.append(("corpus-" + os.path.basename(p)[:-4], ops, "corpus-" + os.path.basename(p)[:-4]))
+    return out
+
+
 def gen_cases(tier, seed):
+    yield from corpus_cases()
     """yields (name, ops list, nontrivial-tag)"""
     rng = random.Random(seed)
     maxh = 4
